@@ -878,6 +878,9 @@ func r11_5(c *Ctx, t *tables) {
 				k := key("type assertion")
 				c.check(x.CommaOk, k, in.Pos(), "comma-ok form", "a failing single-value type assertion panics")
 			case *ssa.Panic:
+				if strings.HasPrefix(b.Comment, "rangefunc.") || strings.HasPrefix(b.Comment, "yield-") {
+					return // compiler-generated misuse check of a range-over-func loop, unreachable for a well-behaved iterator
+				}
 				c.bad(key("panic"), in.Pos(), "explicit panic in library code")
 			case *ssa.BinOp:
 				if (x.Op == token.QUO || x.Op == token.REM) && !isFloat(x.Type()) {
@@ -1036,6 +1039,13 @@ func nonNilCallee(c *Ctx, f *ssa.Function, call *ssa.Call, at *ssa.BasicBlock, n
 		return "a table entry is called without a nil test", false
 	case *ssa.Phi:
 		return "merged function value", false
+	case *ssa.Call:
+		if cal := x.Call.StaticCallee(); cal != nil && !isLibPath(pkgPathOf(cal)) {
+			switch pkgPathOf(cal) {
+			case "slices", "maps", "iter":
+				return "iterator returned by " + pkgPathOf(cal) + "." + cal.Name() + " (never nil)", true
+			}
+		}
 	}
 	return fmt.Sprintf("function value of kind %T", v), false
 }
@@ -1260,6 +1270,9 @@ func nonNilMapValue(v ssa.Value) bool {
 		return false
 	}
 	cal := call.Call.StaticCallee()
+	if cal != nil && isLibPath(pkgPathOf(cal)) {
+		return returnsMadeMap(cal, 0)
+	}
 	if cal == nil || !extFuncIs(cal, "maps", "Clone") || len(call.Call.Args) != 1 {
 		return false
 	}
